@@ -601,7 +601,16 @@ pub fn random(args: &Args) {
                 let h = w.socks[k].h;
                 let (err, dport) = match w.socks[k].kind {
                     0 => {
-                        let r = w.sockets.get_mut::<udp::Socket>(h).send_slice(&data, IpEndpoint::new(ip_of(dst, v6), 9000 + k as u16));
+                        // (a quarter of the datagrams through `send_with`, reserving more room than the closure then fills)
+                        let r = if did % 4 == 3 {
+                            let slack = 1 + (did as usize % 7);
+                            w.sockets.get_mut::<udp::Socket>(h).send_with(data.len() + slack, IpEndpoint::new(ip_of(dst, v6), 9000 + k as u16), |buf| {
+                                buf[..data.len()].copy_from_slice(&data);
+                                data.len()
+                            }).map(|_| ())
+                        } else {
+                            w.sockets.get_mut::<udp::Socket>(h).send_slice(&data, IpEndpoint::new(ip_of(dst, v6), 9000 + k as u16))
+                        };
                         (match r {
                             Ok(()) => "none",
                             Err(udp::SendError::BufferFull) => "full",
